@@ -4,6 +4,7 @@ CONSTANTS
   MaxSock = 1
   MaxEv = 1
   MaxUnsol = 0
+  Limit = 1
   Timed = FALSE
 PROPERTY NoHang
 CHECK_DEADLOCK FALSE
